@@ -333,7 +333,7 @@ C17(cfg, obs) ==
 -----------------------------------------------------------------------------
 \* list semantics shared by C06 / C07 (closure catalogue of harness/src/graph.rs and Callbag.tla)
 FnI(f, x) == CASE f = "inc" -> x + 1 [] f = "dbl" -> 2 * x [] f = "half" -> x \div 2
-PrI(p, x) == CASE p = "even" -> x % 2 = 0 [] p = "odd" -> x % 2 = 1 [] p = "gt1" -> x > 1
+PrI(p, x) == CASE p = "even" -> x % 2 = 0 [] p = "odd" -> x % 2 = 1 [] p = "gt1" -> x > 1 [] p = "gt11" -> x > 11
                [] p = "all" -> TRUE [] p = "none" -> FALSE
 RdI(r, a, x) == CASE r = "add" -> a + x [] r = "max" -> (IF a > x THEN a ELSE x) [] r = "lin" -> 2 * a + x
 GnL(g, x) == CASE g = "rep" -> <<x, x>>
